@@ -199,6 +199,20 @@ fn cmd_check(args: &[String]) -> i32 {
         return 2;
     }
 
+    // vacuity guards (only meaningful for full-size runs)
+    if !journal_all {
+        let mut lost = vec![];
+        for (k, min) in props::guards(&id) {
+            let got = m.stats.get(k).copied().unwrap_or(0);
+            if got < min {
+                lost.push(format!("{k} = {got} < {min}"));
+            }
+        }
+        if !lost.is_empty() && m.found.iter().all(|f| f.v.property != id) {
+            println!("HARNESS ERROR: the check no longer exercises what it is supposed to judge: {}", lost.join("; "));
+            return 2;
+        }
+    }
     let known = Known::load(&vdir.join("known_findings.jsonl"));
     let mut other: BTreeMap<String, u64> = BTreeMap::new();
     let mut known_hit: BTreeMap<String, u64> = BTreeMap::new();
